@@ -34,6 +34,9 @@ import SarpyModel.Drivers.Tre
 import SarpyModel.Drivers.Dispatch
 import SarpyModel.Drivers.DispatchGen
 import SarpyModel.Drivers.NitfDtype
+import SarpyModel.Drivers.Hdr
+import SarpyModel.Drivers.HdrSicd
+import SarpyModel.Drivers.HdrSidd
 namespace Sarpy.Drivers
 
 def step (line : String) : String :=
@@ -75,6 +78,9 @@ def step (line : String) : String :=
   | "disp" :: rest => (dispStep rest).getD "bad-op"
   | "dispgen" :: rest => (dispgenStep rest).getD "bad-op"
   | "nitfdtype" :: rest => (nitfdtypeStep rest).getD "bad-op"
+  | "hdr" :: rest => (hdrStep rest).getD "bad-op"
+  | "hdrsicd" :: rest => (hdrsicdStep rest).getD "bad-op"
+  | "hdrsidd" :: rest => (hdrsiddStep rest).getD "bad-op"
   | _ => "bad-op"
 
 partial def loop (h : IO.FS.Stream) : IO Unit := do
